@@ -24,8 +24,13 @@ func Run() {
 			}
 		}()
 	}
+	var mu sync.Mutex
+	closed, early := false, 0
 	go func() {
 		pw.Wait()
+		mu.Lock()
+		closed = true
+		mu.Unlock()
 		close(ch)
 	}()
 	sums := make(chan int)
@@ -36,6 +41,12 @@ func Run() {
 				s += v
 				n++
 			}
+			// a range loop over a channel ends only after the close
+			mu.Lock()
+			if !closed {
+				early++
+			}
+			mu.Unlock()
 			sums <- s*1000 + n
 		}()
 	}
@@ -47,4 +58,7 @@ func Run() {
 	}
 	host.Emit(0, total)
 	host.Emit(1, cnt)
+	mu.Lock()
+	host.Emit(2, early)
+	mu.Unlock()
 }
